@@ -148,6 +148,12 @@ def query_traversal(node, callback, is_table=False, is_target=False, parent_quer
             node.order_by = array
 
     elif isinstance(node, (ast.Union, ast.Intersect, ast.Except)):
+        # WITH ... ( select UNION select ): the list of CTEs is kept on the set operation
+        if getattr(node, 'cte', None) is not None:
+            for cte in node.cte:
+                node_out = query_traversal(cte.query, callback, parent_query=node)
+                if node_out is not None:
+                    cte.query = node_out
         node_out = query_traversal(node.left, callback, parent_query=node)
         if node_out is not None:
             node.left = node_out
